@@ -5,11 +5,8 @@
 
 package directinvoke
 
-//@ modset directSend = httpOut, all(interop.Reset.InvokeResponseMetrics), all(interop.Reset.InvokeResponseMode), all(interop.InvokeResponseMetrics.RuntimeCalledResponse)
+//@ modset directSend = httpOut, all(interop.Reset.InvokeResponseMetrics), all(interop.Reset.InvokeResponseMode), all(interop.InvokeResponseMetrics.RuntimeCalledResponse), all(bandwidthlimiter.Bucket.tokenCount), all(bandwidthlimiter.Throttler.running), all(interop.InvokeResponseMetrics.ProducedBytes), all(interop.InvokeResponseMetrics.TimeShapedNs), all(interop.InvokeResponseMetrics.StartReadingResponseMonoTimeMs), all(interop.InvokeResponseMetrics.FinishReadingResponseMonoTimeMs), all(interop.InvokeResponseMetrics.OutboundThroughputBps)
 
-// frame of the direct-invoke reply path: the ResponseWriter model, the reset message it completes and the metrics record
-//@ func SendDirectInvokeResponse
-//@   modifies directSend
 
 // ---------------------------------------------------------------------------------------------
 // C17: a direct invoke request is parsed from its own headers only. The expected values below mention
@@ -50,3 +47,71 @@ package directinvoke
 //@ func (*CustomerHeaders).Load
 //@   modifies s.CognitoIdentityID, s.CognitoIdentityPoolID, s.ClientContext
 //@   ensures [empty-input] in == "" ==> r0 == nil && s.CognitoIdentityID == "" && s.CognitoIdentityPoolID == "" && s.ClientContext == ""
+
+// the bandwidth parameters are always inside the allowed ranges (defaults are; ReceiveDirectInvoke is the only writer)
+//@ globalinv [rate-in-range] interop.MinResponseBandwidthRate <= ResponseBandwidthRate && ResponseBandwidthRate <= interop.MaxResponseBandwidthRate
+//@ globalinv [limit-plus-one-does-not-overflow] -1 <= MaxDirectResponseSize && MaxDirectResponseSize < 9223372036854775807
+//@ globalinv [burst-in-range] interop.MinResponseBandwidthBurstSize <= ResponseBandwidthBurstSize && ResponseBandwidthBurstSize <= interop.MaxResponseBandwidthBurstSize
+//@ const interop.MinResponseBandwidthRate <= interop.ResponseBandwidthRate && interop.ResponseBandwidthRate <= interop.MaxResponseBandwidthRate && interop.MinResponseBandwidthBurstSize <= interop.ResponseBandwidthBurstSize && interop.ResponseBandwidthBurstSize <= interop.MaxResponseBandwidthBurstSize
+
+//@ event TrailerComplete = call net/http.(Header).Set when a1 == EndOfResponseTrailer && a2 == EndOfResponseComplete
+//@ event TrailerOversized = call net/http.(Header).Set when a1 == EndOfResponseTrailer && a2 == EndOfResponseOversized
+//@ event TrailerTruncated = call net/http.(Header).Set when a1 == EndOfResponseTrailer && a2 == EndOfResponseTruncated
+//@ event LimitOnePastMax = call io.LimitReader when a1 == MaxDirectResponseSize + 1
+//@ event LimitOther = call io.LimitReader when a1 != MaxDirectResponseSize + 1
+//@ event CopyFailed = ret bandwidthlimiter.BandwidthLimitingCopy when r1 != nil
+//@ event CopyReturned = ret bandwidthlimiter.BandwidthLimitingCopy
+//@ event PlainCopyFailed = ret io.Copy when r1 != nil
+//@ event PlainCopyReturned = ret io.Copy
+
+// the streaming writer is throttled by a bucket with burst = ResponseBandwidthBurstSize and refill = rate * 125 ms
+//@ func NewFlushingWriter
+//@   modifies nothing
+//@ func NewCancellableWriter
+//@   modifies nothing
+//@   ensures r0 != nil && fresh(r0)
+
+//@ func NewStreamedResponseWriter
+//@   extfunc cancel
+//@   modifies nothing
+//@   ensures [bucket-parameters] r2 == nil ==> r0 != nil && r0.th != nil && r0.th.metrics != nil && r0.th.b != nil && r0.th.b.capacity == ResponseBandwidthBurstSize && r0.th.b.tokenCount == ResponseBandwidthBurstSize && r0.th.b.refillNumber == ResponseBandwidthRate * DefaultRefillIntervalMs / 1000 && r0.th.b.refillNumber > 0
+
+// classification of the streamed copy: exactly one trailer; Truncated iff the copy failed; Oversized iff it
+// succeeded, the size is restricted and more than the limit was copied (the reader is cut one byte past the limit)
+//@ func asyncPayloadCopy$1
+//@   extfunc cancel
+//@   requires streamedResponseWriter != nil && streamedResponseWriter.th != nil && streamedResponseWriter.th.metrics != nil
+//@   ensures [one-classification] delta(TrailerComplete) + delta(TrailerOversized) + delta(TrailerTruncated) == 1
+//@   ensures [truncated-iff-copy-error] delta(TrailerTruncated) == 1 <==> delta(CopyFailed) == 1
+//@   ensures [oversized-exactly] delta(TrailerOversized) == 1 <==> (delta(CopyFailed) == 0 && MaxDirectResponseSize != -1 && firstret(CopyReturned) > MaxDirectResponseSize)
+//@   ensures [cut-one-past-limit] (MaxDirectResponseSize != -1 ==> delta(LimitOnePastMax) == 1) && delta(LimitOther) == 0 && (MaxDirectResponseSize == -1 ==> delta(LimitOnePastMax) == 0)
+//@   ensures [one-copy] delta(CopyReturned) == 1
+
+// the buffered (non-streaming) direct reply: same classification with io.Copy
+//@ modset directEvents = events(TrailerComplete, TrailerOversized, TrailerTruncated, LimitOnePastMax, LimitOther, CopyFailed, CopyReturned, PlainCopyFailed, PlainCopyReturned)
+
+//@ func parseFunctionResponseMode
+//@   modifies nothing
+//@ func sendStreamingInvokeResponse
+//@   extfunc cancel
+//@   modifies directSend, directEvents
+//@ func sendStreamingInvokeErrorResponse
+//@   extfunc cancel
+//@   modifies directSend, directEvents
+//@ func asyncPayloadCopy
+//@   modifies httpOut, directEvents
+
+//@ func sendPayloadLimitedResponse
+//@   modifies directSend, directEvents
+//@   ensures [at-most-one-classification] delta(TrailerComplete) + delta(TrailerOversized) + delta(TrailerTruncated) <= 1
+//@   ensures [classified-after-copy] delta(PlainCopyReturned) == 1 ==> delta(TrailerComplete) + delta(TrailerOversized) + delta(TrailerTruncated) == 1
+//@   ensures [truncated-iff-copy-error] delta(PlainCopyReturned) == 1 ==> (delta(TrailerTruncated) == 1 <==> delta(PlainCopyFailed) == 1)
+//@   ensures [oversized-exactly] delta(PlainCopyReturned) == 1 ==> (delta(TrailerOversized) == 1 <==> (delta(PlainCopyFailed) == 0 && InvokeResponseMode != "Streaming" && firstret(PlainCopyReturned) == MaxDirectResponseSize + 1))
+//@   ensures [cut-one-past-limit] delta(LimitOther) == 0
+//@   ensures [error-kind] delta(TrailerOversized) == 1 ==> typeis(r0, *interop.ErrorResponseTooLargeDI)
+
+// frame of the direct-invoke reply path: the ResponseWriter model, the reset message it completes and the metrics record
+//@ func SendDirectInvokeResponse
+//@   modifies directSend, directEvents
+//@   loop range additionalHeaders: invariant true
+
